@@ -156,7 +156,10 @@ def c08d(ctx):
     if len(cm) != 1 or len(rp) != 1:
         ctx.fail(o, Site(b, 0, 0), "flush must mem::replace the physical batch and commit the old one exactly once")
     else:
-        if not any(x.kind == "call" and x.site == rp[0] for x in df.origins_of_operand(b, cm[0].node["args"][0], extra_transparent=[(r"^$", None)])) and \
+        # ... either the replaced field itself, or the db_write_batch field of the whole CurrentBatch taken out of `self`
+        whole = "db_write_batch" in df.access_path(b, cm[0].node["args"][0]) and \
+            any(x.kind == "param" and str(x.info).split(".")[0] == "_1" for x in df.origins_of_operand(b, cm[0].node["args"][0]))
+        if not whole and not any(x.kind == "call" and x.site == rp[0] for x in df.origins_of_operand(b, cm[0].node["args"][0], extra_transparent=[(r"^$", None)])) and \
            "db_write_batch" not in df.access_path(b, rp[0].node["args"][0]):
             ctx.fail(o, cm[0], "flush commits something other than the current physical batch")
         if cm[0].bb in b.reachable([cm[0].node["t"]]):
